@@ -183,6 +183,24 @@ def bucket_tables(ctx, cr):
         ctx.ob(rule, rule + ":summary_table:removals", not bad and len(removals) <= 1,
                ("entries are removed from %s: a rule that the structured report lists as compliant / non-compliant disappears from the table section" % [(r[0], r[1], "l.%s" % r[2]) for r in bad]) if bad
                else "only removal: %s" % [(r[0], r[1]) for r in removals], fn=f)
+        # ... and while the rules are being sorted into the sections, where one rule goes does not depend on which rules came before it:
+        # inside the collecting loop the section maps are only inserted into (a SKIP entry kept "unless the name was already seen as
+        # PASS/FAIL" is right only when the applying definition comes first; the clean-up belongs after the loop)
+        from engine import flow as _flow
+        nexts = [bi for bi, t in M.iter_calls(f) if M.norm_path(t["fn"].get("decl", "")) == "std::iter::Iterator::next"]
+        if not nexts:
+            ctx.lost(rule, rule + ":summary_table:order-free", "the loop over the rule records")
+        else:
+            dom = _flow.dominators(f)
+            body = _flow.natural_loop(f, nexts[0], dom)
+            lookups = []
+            for bi, t in M.iter_calls(f):
+                p = M.norm_path(t["fn"].get("path", ""))
+                if bi in body and t["args"] and ("HashMap" in p or "IndexMap" in p or "BTreeMap" in p or "hash_map" in p or "HashSet" in p) and p.split("::")[-1] in (
+                        "contains_key", "get", "get_mut", "entry", "remove", "retain", "contains", "is_empty", "len"):
+                    lookups.append("%s on %s (l.%s)" % (p.split("::")[-1], receiver_name(f, t["args"][0]), t.get("ln")))
+            ctx.ob(rule, rule + ":summary_table:order-free", not lookups, ("while collecting, the section maps are consulted through %s: the section a rule is listed in depends on the order of the definitions" % lookups) if lookups
+                   else "inside the collecting loop the section maps are only inserted into", fn=f)
     # 2. console summary: report_from_events -> GenericReporter::report(failed, passed, skipped)
     key = "commands::reporters::validate::common::report_from_events"
     f = cr.fns.get(key)
